@@ -164,7 +164,7 @@ def run(m, chk):
         "no IndexError from the constructor's index scans (X-INDEX), span/mult/split dominated by the valid ⇒ ValueError guard. "
         "Completeness of the validator (that it accepts exactly the clamped vectors) and the values of span/mult are not decided."
     )
-    chk.decides = ["LIMITS-RAW (limits reads U[degree] and U[npts], not the tolerance-merged knots)", "NAN-REJECT (a node that is not ordered with the knots — a NaN — is not valid: span / mult raise ValueError instead of searching for ever)", "PROBE-ALL (the numeric probe of the validator is tried on every element: no all / any / next stops it early)", "TOL-ABSOLUTE (knot identity is decided on differences, never with a tolerance relative to the knots)", "LOSSY-COMPARE (exact knots and nodes are not compared through their float image)", "UNORDERED (the sortedness test of the validator rejects a pair that is not ordered at all)", "FUNNEL", "COMMIT-LAST (KnotVector)", "V1", "X-INDEX", "GATE(valid ⇒ ValueError) for span/mult/split", 'MULT-KEEP (distinct knots never become knot-vector elements without their multiplicity)']
+    chk.decides = ["WALK-ONCE (the nodes to insert / remove are walked once, or materialised first: a one-pass iterable cannot slip past the interval test)", "LIMITS-RAW (limits reads U[degree] and U[npts], not the tolerance-merged knots)", "NAN-REJECT (a node that is not ordered with the knots — a NaN — is not valid: span / mult raise ValueError instead of searching for ever)", "PROBE-ALL (the numeric probe of the validator is tried on every element: no all / any / next stops it early)", "TOL-ABSOLUTE (knot identity is decided on differences, never with a tolerance relative to the knots)", "LOSSY-COMPARE (exact knots and nodes are not compared through their float image)", "UNORDERED (the sortedness test of the validator rejects a pair that is not ordered at all)", "FUNNEL", "COMMIT-LAST (KnotVector)", "V1", "X-INDEX", "GATE(valid ⇒ ValueError) for span/mult/split", 'MULT-KEEP (distinct knots never become knot-vector elements without their multiplicity)']
     chk.not_decided = ["completeness of __is_valid (tails / unclamped vectors are accepted — seen by reading, out of static reach)", "agreement of span/mult/knots/limits values with the element list"]
 
     # 1. funnel ------------------------------------------------------------------------------
@@ -286,6 +286,9 @@ def run(m, chk):
                detail="" if ok else f"{q}: `{seg(bad[0].ast, 60)}` is reachable without the `valid(nodes)` ⇒ ValueError guard: a node outside the interval yields a value / another exception", func=q, construct="unguarded query")
     unordered_rejected(r, chk, "heavy.ImmutableKnotVector.__is_valid")
     probe_all(r, chk, "heavy.ImmutableKnotVector.__is_valid")
+    from .extra import walk_once
+
+    walk_once(r, chk, ["heavy.ImmutableKnotVector.__add__", "heavy.ImmutableKnotVector.__sub__"], floor=2)
     from .extra import limits_raw
 
     limits_raw(r, chk)
